@@ -113,10 +113,17 @@ RULE = ("Real kvarn::handle_connection on loopback TCP pairs, TLS by a rustls Se
         "ServerCachePreference Full / None, QueryMatters page echoing path?query, method echo, a page whose handler sets its own "
         "content-length, pages whose handlers leave connection-specific headers (keep-alive, connection, upgrade, te, "
         "proxy-connection), empty body, 404/500 handler pages) + files (text, binary, index.html) + missing paths + unsafe paths "
-        "(/./x) + a POST echo handler that reads the request body; Package menus (or_insert / insert / remove / append, 0-3 "
-        "extensions in priority order). Requests: GET/HEAD/POST/OPTIONS/PUT x Accept-Encoding {none, gzip, br, identity, gzip;q=0, "
+        "(/./x) + echo handlers that read the request body completely (/echo, read_to_bytes(1 MiB)) or only its first 3 / 100 bytes "
+        "(/echo3, /echo100); Package menus (or_insert / insert / remove / append, 0-3 "
+        "extensions in priority order). Requests: GET/HEAD/POST/OPTIONS/PUT/DELETE/PATCH x Accept-Encoding {none, gzip, br, identity, gzip;q=0, "
         "*;q=0 identity;q=0} x Range around the length of the ENCODED representation (a>b, a=len, open forms) x If-Modified-Since "
-        "(future / past / garbage; cold and warm cache) x Origin x query strings x bodies. Oracles: (a) parity itself, independent of "
+        "(future / past / garbage; cold and warm cache) x Origin x query strings x REQUEST BODIES of 1 B - 150 kB (around the limits of "
+        "the partial readers and around the HTTP/2 initial flow-control window 65535, so that WINDOW_UPDATEs are needed) sent to "
+        "whatever answers: a handler that reads all, part or nothing of it, files (405), missing paths, cache hits, refused Ranges "
+        "(416) and unsafe paths (400), a body that looks like a request - each followed by the rest of the history on the SAME "
+        "connection and a sentinel request that checks the framing. proto.answered: histories made of such requests; the "
+        "implementation's (every request answered on HTTP/1.1?, on HTTP/2?) against the model's connection loop and the "
+        "specification (yes, yes). Oracles: (a) parity itself, independent of "
         "the model: status, all headers except {connection, keep-alive, proxy-connection, transfer-encoding, upgrade, te, "
         "content-length, alt-svc} as sorted "
         "multisets (last-modified value masked) and body bytes of the two protocols are equal; (b) both equal the Coq specification "
@@ -128,8 +135,8 @@ RULE = ("Real kvarn::handle_connection on loopback TCP pairs, TLS by a rustls Se
         "(listener, accept loop, TLS + ALPN, connection tasks, graceful shutdown), same model and oracles. "
         "(2) proto.burst: 2-32 requests sent AT ONCE as streams of one HTTP/2 connection to one fresh host: H_slow handlers sleeping a "
         "seeded 0-250 ms (x-delay header) so that handlers finish in a seeded order unrelated to the stream order, several streams per "
-        "page, cacheable and uncacheable pages, cache on/off, HEAD, ranges, Accept-Encoding, files, 404s and POST echo with a distinct "
-        "body per stream; proto.burst1: the same burst over as many concurrent HTTP/1.1 TLS connections. Oracle: every stream's "
+        "page, cacheable and uncacheable pages, cache on/off, HEAD, ranges, Accept-Encoding, files, 404s, POST echo with a distinct "
+        "body per stream (up to 70 kB) and bodies that are read in part or not at all (also by the slow handlers); proto.burst1: the same burst over as many concurrent HTTP/1.1 TLS connections. Oracle: every stream's "
         "answer equals send H2 (H1) of the layer-4 response of ITS request alone on a fresh host (proto.burst_spec), equals the "
         "two-block task model run in the schedule derived from the delays (correspondence), and equals the answer the real server "
         "gives the same request alone over a fresh connection to a fresh host (proto.alone / proto.alone1, same model). "
@@ -148,23 +155,37 @@ ASSUMPTIONS = [
     "(the harness gives compression_options_oneshot = compression_options_cached); which bytes a compressor emits is external: "
     "the layer-4 response is observed, not predicted",
     "requests both protocols can express: lower-case header names, no host/connection/keep-alive/transfer-encoding/upgrade/te "
-    "request headers, origin-form target, a request body announced by content-length on both protocols; no streaming "
-    "(WebSocket / ResponsePipeFuture) responses, no HTTP/2 server push, HTTP/3 not exercised (UDP/QUIC); a request body is only "
-    "sent to a handler that reads it (what an unread HTTP/1 body does to the connection is C08's subject)",
+    "request headers, origin-form target, a request body announced by content-length on both protocols and sent completely; no "
+    "streaming (WebSocket / ResponsePipeFuture) responses, no HTTP/2 server push, HTTP/3 not exercised (UDP/QUIC)",
+    "request bodies only with methods whose content-length kvarn's HTTP/1 reader honours (utils::get_body_length_request returns 0 "
+    "for GET/HEAD/OPTIONS/CONNECT/TRACE whatever content-length says - as in C08, a GET that carries a body is outside: the "
+    "hypothesis body_declared of history_parity / pair_history_answered; undeclared_request_body_refuted shows in the model that "
+    "such a GET's late body bytes would be read as the next request line on HTTP/1.1 and not on HTTP/2; not replayed on the real "
+    "code, the generators never send it); history_parity additionally assumes that no answer makes a task panic, which "
+    "send_never_panics proves for every sanitize_data that sanitize_request can produce and bodies below 2^64 bytes",
+    "the HTTP/1 client sends the whole declared body before it reads the answer (bodies <= 150 kB, answers to them < 1 kB or echoed "
+    "after the body was read: no write-write deadlock); how much of a body arrives in the same read as the head is not controlled "
+    "and - in the repaired code - decides nothing (history_parity quantifies over it)",
 ]
 TRUSTED = [
-    "modelled (Model/Protocols.v): src/lib.rs handle_connection (alt-svc append, per-request task for HTTP/2), SendKind::send (range "
+    "modelled (Model/Protocols.v): src/lib.rs handle_connection (alt-svc append, per-request task for HTTP/2, the HTTP/1 request loop "
+    "with the fate of a request body: Http1Body::new's early bytes, read_to_bytes(l) taking min(declared, l), Http1Body::drain of "
+    "fix dfe4d54 - and the loop before that fix as the variant drain = false), SendKind::send (range "
     "application incl. the 416 replacement, ensure_length, ensure_version, resolve_package, body/HEAD rule), src/application.rs "
-    "ResponsePipe::{ensure_length, ensure_version, send_response} HTTP/1 and HTTP/2 arms (connection: keep-alive rule); "
+    "ResponsePipe::{ensure_length, ensure_version, send_response} HTTP/1 and HTTP/2 arms (connection: keep-alive rule, "
+    "remove_connection_specific_headers); utils::get_body_length_request (which methods have a declared body); "
     "h2 0.4 proto/streams/send.rs check_headers (the only h2 logic transcribed)",
-    "NOT modelled, exercised only: rustls (handshake, records, ALPN selection), h2 (HPACK, flow control, frame scheduling, stream "
-    "state machine, the client-side content-length check), tokio task scheduling, moka; src/encryption.rs; the request readers "
-    "(kvarn_async::read::request is C07's, h2 RecvStream -> Body::read_to_bytes is exercised by the POST echo pages only)",
+    "NOT modelled, exercised only: rustls (handshake, records, ALPN selection), h2 (HPACK, flow control incl. the WINDOW_UPDATEs "
+    "Body::read_to_bytes releases and the RST_STREAM(NO_ERROR) after an answer whose request body was not read, frame scheduling, "
+    "stream state machine, the client-side content-length check), tokio task scheduling, moka; src/encryption.rs; the request "
+    "readers (kvarn_async::read::request is C07's; which BYTES read_to_bytes returns on either protocol is observed through the "
+    "echo pages, not modelled: the model has the number of bytes taken only)",
     "layer 4 (handle_cache and below) is C03's model in the theorems and an OBSERVATION of the real handle_cache on an identical "
     "fresh host in the correspondence (proto.l4); the twin hosts are deterministic functions of the configuration",
     "harness/src/c20.rs: raw HTTP/1.1 client (strict status line / header / content-length framing, sentinel request), h2 client "
-    "driver, rcgen certificate, Package / H_slow / echo extensions; header multisets are sorted before comparison, the value of "
-    "last-modified is masked",
+    "driver, rcgen certificate, Package / H_slow / echo / echon extensions; header multisets are sorted before comparison, the value "
+    "of last-modified is masked; the echon handler cuts what read_to_bytes(l) returns to l bytes (the in-memory Body::Bytes of the "
+    "layer-4 probe ignores the limit)",
 ]
 LEVEL_TEXT = ("partial. Machine-checked Coq theorems over an executable model of the protocol-dependent send path above the shared "
               "layer 4 of C03: protocol_parity / send_parity (for every host configuration, cache state, request, layer-4 response, "
@@ -174,15 +195,29 @@ LEVEL_TEXT = ("partial. Machine-checked Coq theorems over an executable model of
               "never rejects the head the repaired HTTP/2 arm produces), head_parity (HEAD = GET minus body on both "
               "protocols), stream_independence (for every set of concurrent streams and EVERY schedule of the tasks' lookup and "
               "completion blocks over the shared response cache, every stream receives byte for byte the HTTP/2 answer of its own "
-              "request alone, under C03's handler contract) and streams_answered_exactly_once. The model is tied to /repo on every run "
+              "request alone, under C03's handler contract), streams_answered_exactly_once, and - request bodies - history_parity "
+              "(for every host configuration and state and EVERY history of requests on one connection, each with a declared request "
+              "body of any length that its handler reads completely, in part or not at all, segmented arbitrarily: the repaired "
+              "HTTP/1 connection, like the HTTP/2 one, answers every request, by the application in the state its predecessors left, "
+              "and the two answer sequences are equal up to the same filter; hypothesis: no answer panics, discharged by "
+              "send_never_panics), pair_history_answered (the executable history model of the correspondence equals its "
+              "specification on every input of the domain) and the two witnesses unread_request_body_v0_refuted (the loop before "
+              "fix dfe4d54 answers the PUT-with-refused-Range witness's second request on HTTP/2 only) and "
+              "undeclared_request_body_refuted (the domain hypothesis cannot be dropped: a GET carrying body bytes). "
+              "The model is tied to /repo on every run "
               "by real TLS loopback connections through kvarn::handle_connection with an HTTP/1.1 and an HTTP/2 client (full wire "
               "answers vs. the extracted model, parity and specification oracles, multiplexed bursts with seeded handler delays vs. "
-              "each request alone). NOT proved, only exercised by that run: everything inside the h2 and rustls crates - HPACK, flow "
-              "control, stream scheduling and state machine, TLS and ALPN - and the tokio scheduler; the concurrency theorem is about "
-              "sequentially consistent interleavings of two atomic blocks per task.")
-LEVEL_NOTE = ("Trusted: Coq kernel; extraction (sample re-checked in-kernel); the hand transcription of SendKind::send / ResponsePipe "
-              "into Model/Protocols.v as validated by the differential run; h2 and rustls as black boxes; layer 4 observed on a twin "
-              "host. No axioms.")
+              "each request alone, histories with unread / partly read / large request bodies on both protocols). NOT proved, only "
+              "exercised by that run: everything inside the h2 and rustls crates - HPACK, flow "
+              "control (window updates for large request bodies, the reset after an unread one), stream scheduling and state machine, "
+              "TLS and ALPN - and the tokio scheduler; the concurrency theorem is about "
+              "sequentially consistent interleavings of two atomic blocks per task; which bytes a partial read returns is observed, "
+              "the model only has how many are taken. No known finding is open: the former class h1-unread-request-body was repaired "
+              "by kvarn commit dfe4d54 and is now part of the claim.")
+LEVEL_NOTE = ("Trusted: Coq kernel; extraction (sample re-checked in-kernel); the hand transcription of SendKind::send / ResponsePipe / "
+              "handle_connection's request loop into Model/Protocols.v as validated by the differential run; h2 and rustls as black "
+              "boxes; layer 4 observed on a twin host; request bodies only where kvarn's HTTP/1 reader honours content-length "
+              "(not GET/HEAD/OPTIONS). No axioms.")
 TECHNIQUE = ("Coq proof (equality up to an explicit header filter; inductive invariant over all schedules, reusing C03's simulation) + "
              "differential correspondence over real TLS connections with both protocols")
 
